@@ -46,10 +46,40 @@ def rand_literal(rng):
     return text, man, exp
 
 
+def tie_literal(rng, prec):
+    """a literal whose value is exactly (or within one unit of its last digit of) the midpoint of two neighbouring prec-bit
+    numbers, written with a decimal exponent of large magnitude: N*2^k = (N*5^-k) * 10^k for k < 0, and for k > 0 the decimal
+    integer N*2^k cut into mantissa and exponent.  Decides whether the exact branch (|exponent| <= 400) really is exact."""
+    N = (1 << prec) | rng.getrandbits(prec) | 1            # prec+1 bits, odd: a tie between prec-bit neighbours
+    if rng.random() < 0.6:
+        k = -rng.choice([rng.randint(150, 400), rng.randint(201, 260), rng.randint(330, 400)])
+        man, exp = N * 5 ** (-k), k
+    else:
+        k = rng.choice([rng.randint(500, 1328), rng.randint(665, 900)])
+        v = N << k; ds = str(v)
+        cut = rng.choice([rng.randint(150, 400), rng.randint(201, 260)])
+        cut = min(cut, len(ds) - 1)
+        man, exp = int(ds[:len(ds) - cut]) , cut            # truncated: just below the tie unless the cut digits are zeros
+        if rng.random() < 0.5: man += 1                      # just above
+    man += rng.choice([0, 0, 1, -1])
+    if rng.random() < 0.5: man = -man
+    text = "%de%d" % (man, exp)
+    if rng.random() < 0.3 and len(str(abs(man))) > 3:       # same value with a decimal point inside the mantissa
+        d = str(abs(man)); j = rng.randint(1, len(d) - 1)
+        frac = d[j:]
+        if not frac.endswith("0"):
+            text = ("-" if man < 0 else "") + d[:j] + "." + frac + "e%d" % (exp + len(frac))
+    return text, man, exp
+
+
 def c_from_str(rng, fn):
     prec = rng.choice([1, 2, 5, 10, 24, 53, 53, 64, 80, 100, 113, 200, 400])
     rnd = rng.choice(RND)
-    text, man, exp = rand_literal(rng)
+    if rng.random() < 0.2:
+        prec = rng.choice([10, 24, 53, 64, 113])
+        text, man, exp = tie_literal(rng, prec)
+    else:
+        text, man, exp = rand_literal(rng)
     if rng.random() < 0.15:
         text = " " * rng.randint(0, 2) + text.upper() + " " * rng.randint(0, 2)
     value = Fraction(man) * Fraction(10) ** exp
@@ -103,11 +133,21 @@ def glue(s, dps):
     return bitprec, fixdps
 
 
+def tostr_regime(s, bitprec):
+    """which path of to_digits_exp produced the digits: the approximate power-of-ten scaling (|exp+bc| > 3500), a mantissa cut to
+    bitprec bits, or the exact path"""
+    if abs(s[2] + s[3]) > 3500: return "huge-exponent"
+    return "bc>bitprec" if s[3] > bitprec else "bc<=bitprec"
+
+
 def near_decimal_tie(rng, prec):
     """a prec-bit value adjacent to a decimal rounding tie d.ddd5 x 10^e"""
     n = rng.randint(1, 12)
     m = rng.randint(10 ** (n - 1), 10 ** n - 1) * 10 + 5
     e = rng.randint(-30, 30)
+    if rng.random() < 0.3:
+        # magnitudes on both sides of the switch to the approximate scaling path (|exp+bc| around 350 ... 3500 bits)
+        e = rng.choice([-1, 1]) * rng.choice([rng.randint(31, 320), rng.randint(100, 1040), rng.randint(1000, 1100)])
     tie = Fraction(m) * Fraction(10) ** (e - n)
     rnd = rng.choice("fc")
     r = round_fraction(tie, prec, rnd)
@@ -199,6 +239,6 @@ def spec_check(case, out):
     cands = nearest_ndigit(abs(x), dps)
     if abs(d) not in cands or (d < 0) != (x < 0):
         bitprec = int(dig * math.log(10, 2)) + 10
-        regime = "bc>bitprec" if s[3] > bitprec else "bc<=bitprec"
+        regime = tostr_regime(s, bitprec)
         bad.append(("C08", "nstr/to_str value is not a nearest %d-digit decimal" % dps, regime))
     return bad
